@@ -69,7 +69,7 @@ func checkC16(c *Ctx, r *Result, tier string) {
 	reach := c.Reachable(entries, func(f *ssa.Function) bool { return !own(f) })
 	funcs := append([]*ssa.Function{}, reach.Order...)
 	sort.Slice(funcs, func(i, j int) bool { return c.FuncKey(funcs[i]) < c.FuncKey(funcs[j]) })
-	r.Floor("R16a-functions", len(funcs), 30)
+	r.Floor("R16a-functions", len(funcs), 20)
 
 	// ---- R16a -----------------------------------------------------------------------------------
 	oc := newObligCtx(c)
